@@ -1,1 +1,144 @@
-//! Verification hooks: `transports` (thin pass-through wrappers; feature `verif-hooks` only).
+//! C19: the send dispatch (`transports::Sender` / `TransportsSender::poll_send`).
+//!
+//! * While the registry is enabled, `Socket` construction stores a clone of the
+//!   `TransportsSender` (what `Transport::create_sender` hands to noq) keyed by endpoint id;
+//!   [`take_sender`] turns it into the very `noq::UdpSender` implementation QUIC uses.
+//! * `select_*` are the `send.select` events emitted at each dispatch decision.
+
+use std::{
+    collections::HashMap,
+    io,
+    net::SocketAddr,
+    pin::Pin,
+    sync::{
+        Arc, Mutex, Weak,
+        atomic::{AtomicBool, Ordering},
+    },
+    task::{Context, Poll},
+};
+
+use iroh_base::{CustomAddr, EndpointId, RelayUrl};
+
+use super::{addr_maps::Maps, event, events_enabled};
+use crate::socket::{
+    Socket,
+    transports::{IpConfig, Sender, TransportsSender},
+};
+
+static ENABLED: AtomicBool = AtomicBool::new(false);
+static REGISTRY: Mutex<Option<HashMap<EndpointId, (Weak<Socket>, TransportsSender)>>> =
+    Mutex::new(None);
+
+/// Turns the sender registry on or off (off by default: nothing is stored).
+pub fn enable_registry(on: bool) {
+    ENABLED.store(on, Ordering::SeqCst);
+    if !on {
+        *REGISTRY.lock().expect("poisoned") = None;
+    }
+}
+
+pub(crate) fn register(id: EndpointId, sock: &Arc<Socket>, sender: TransportsSender) {
+    if !ENABLED.load(Ordering::SeqCst) {
+        return;
+    }
+    REGISTRY
+        .lock()
+        .expect("poisoned")
+        .get_or_insert_with(HashMap::new)
+        .insert(id, (Arc::downgrade(sock), sender));
+}
+
+/// The `noq::UdpSender` of an endpoint, built like `Transport::create_sender` does.
+pub struct UdpSender {
+    inner: Pin<Box<Sender>>,
+}
+
+/// Removes and returns the stored sender of the endpoint with this id.
+pub fn take_sender(id: &EndpointId) -> Option<UdpSender> {
+    let (sock, sender) = REGISTRY.lock().expect("poisoned").as_mut()?.remove(id)?;
+    let sock = sock.upgrade()?;
+    Some(UdpSender {
+        inner: Box::pin(Sender::verif_new(sock, sender)),
+    })
+}
+
+impl UdpSender {
+    /// `<Sender as noq::UdpSender>::poll_send`
+    pub fn poll_send(
+        &mut self,
+        transmit: &noq_udp::Transmit<'_>,
+        cx: &mut Context,
+    ) -> Poll<io::Result<()>> {
+        noq::UdpSender::poll_send(self.inner.as_mut(), transmit, cx)
+    }
+
+    /// `<Sender as noq::UdpSender>::max_transmit_segments`
+    pub fn max_transmit_segments(&self) -> usize {
+        noq::UdpSender::max_transmit_segments(&*self.inner).get()
+    }
+
+    /// The endpoint's mapped-address maps (shared with the socket).
+    pub fn maps(&self) -> Maps {
+        Maps(self.inner.verif_mapped_addrs())
+    }
+}
+
+pub(crate) fn select_ip(config: IpConfig, rule: &'static str) {
+    if events_enabled() {
+        let bind: SocketAddr = config.into();
+        event(
+            "send.select",
+            &[
+                ("kind", "ip".to_string()),
+                ("bind", bind.to_string()),
+                ("prefix_len", config.prefix_len().to_string()),
+                ("is_default", config.is_default().to_string()),
+                ("rule", rule.to_string()),
+            ],
+        );
+    }
+}
+
+pub(crate) fn select_relay(url: &RelayUrl, id: &EndpointId) {
+    if events_enabled() {
+        event(
+            "send.select",
+            &[
+                ("kind", "relay".to_string()),
+                ("url", url.to_string()),
+                ("id", id.to_string()),
+            ],
+        );
+    }
+}
+
+pub(crate) fn select_custom(remote: &CustomAddr, local: Option<&CustomAddr>) {
+    if events_enabled() {
+        event(
+            "send.select",
+            &[
+                ("kind", "custom".to_string()),
+                ("remote", remote.to_string()),
+                ("local", local.map(|l| l.to_string()).unwrap_or_default()),
+            ],
+        );
+    }
+}
+
+pub(crate) fn select_endpoint(id: &EndpointId) {
+    if events_enabled() {
+        event(
+            "send.select",
+            &[("kind", "endpoint".to_string()), ("id", id.to_string())],
+        );
+    }
+}
+
+pub(crate) fn select_none(why: &'static str) {
+    if events_enabled() {
+        event(
+            "send.select",
+            &[("kind", "dropped".to_string()), ("why", why.to_string())],
+        );
+    }
+}
